@@ -666,7 +666,7 @@ class Frame:
             if isinstance(v, int):
                 return -v
             if isinstance(v, SymInt):
-                return SymInt("-(%s)" % v.expr)
+                return SymInt("-(%s)" % v.expr, lo=(-v.hi if v.hi is not None else None), hi=(-v.lo if v.lo is not None else None))
         if isinstance(e.op, ast.UAdd):
             return v
         raise Unsupported("unary operator on %r" % (v,))
@@ -683,7 +683,9 @@ class Frame:
             if isinstance(a, int) and isinstance(b, int):
                 return a + b
             if isinstance(a, (int, SymInt)) and isinstance(b, (int, SymInt)):
-                return SymInt("(%s + %s)" % (_ie(a), _ie(b)))
+                (al, ah), (bl, bh) = _bounds(a), _bounds(b)
+                return SymInt("(%s + %s)" % (_ie(a), _ie(b)), lo=(al + bl if None not in (al, bl) else None),
+                              hi=(ah + bh if None not in (ah, bh) else None))
             if isinstance(a, list) and isinstance(b, list):
                 return a + b
             if isinstance(a, tuple) and isinstance(b, tuple):
